@@ -157,6 +157,8 @@ pub struct Corrupt;
 const DECODERS: &[&str] = &["from_slice", "parse_jsonb"];
 
 fn err_name(e: &jsonb::Error) -> String {
+    // what a caller does with an error first: print it
+    let _ = e.to_string();
     let s = format!("{:?}", e);
     match s.find('(') {
         Some(i) => s[..i].to_string(),
@@ -180,6 +182,35 @@ fn decode_once(decoder: &str, bytes: &[u8]) -> Result<(String, Option<MVal>), Vi
         })
     });
     PLACED.with(|c| c.set(c.get() + placed as u64));
+    // ... and where an ordinary caller has it: at the start of a heap block (aligned start, ragged end, more heap
+    // behind it). What a decoder returns may not depend on which of the two it was given.
+    if placed {
+        let r2 = guard(|| match decoder {
+            "from_slice" => jsonb::from_slice(bytes).map(|v| mval::from_value(&v)),
+            _ => jsonb::parse_jsonb(bytes).map(|v| mval::from_value(&v)),
+        });
+        let show = |r: &Result<Result<Result<MVal, String>, jsonb::Error>, crate::harness::PanicInfo>| match r {
+            Err(p) => format!("panic at {}", p.loc),
+            Ok(Err(e)) => format!("Err({})", err_name(e)),
+            Ok(Ok(Err(why))) => format!("Ok with an ill-formed string ({why})"),
+            Ok(Ok(Ok(v))) => format!("Ok({})", truncate_str(&mval::to_json(v).to_string(), 100)),
+        };
+        let same = match (&r, &r2) {
+            (Err(a), Err(b)) => a.loc == b.loc,
+            (Ok(Err(a)), Ok(Err(b))) => err_name(a) == err_name(b),
+            (Ok(Ok(a)), Ok(Ok(b))) => a == b,
+            _ => false,
+        };
+        if !same {
+            return Err(Viol {
+                class: format!("O6:placement_dependent:{decoder}"),
+                detail: format!(
+                    "the same {} bytes decode to {} when the row ends at the end of its mapping (start address = -len mod 4096) but to {} at the start of a heap block",
+                    bytes.len(), show(&r), show(&r2)
+                ),
+            });
+        }
+    }
     let max_req = alloc::max_request();
     let limit = (256usize << 20).max(4096 * bytes.len());
     if max_req > limit {
